@@ -2,9 +2,9 @@
     Only statements live here; each is closed by [exact] of a lemma proved elsewhere.
     [S : Z -> Z] is the underlying byte string (an arbitrary function of the absolute
     offset); a push is consistent when its data is S[off, off+n). *)
-From Coq Require Import List ZArith Permutation.
+From Coq Require Import List ZArith Permutation Lia.
 From V Require Import Gen.Params FrameSorter.Model FrameSorter.InvCheck FrameSorter.Spec
-  FrameSorter.ProofsInvOk FrameSorter.ProofsRun
+  FrameSorter.ProofsInvOk FrameSorter.ProofsRun FrameSorter.ProofsGapLimit
   RecvStream.Model RecvStream.Spec RecvStream.ProofsCrypto RecvStream.ProofsRecv RecvStream.ProofsRecv2 RecvStream.MgrRun RecvStream.ProofsMgr RecvStream.GlueRun RecvStream.ProofsGlue.
 Import ListNotations.
 Open Scope Z_scope.
@@ -444,3 +444,81 @@ Theorem C03_crypto_no_buffers : forall S ops c,
   fired (c_sorter (cr_st c)) = [] /\ live (queue (c_sorter (cr_st c))) = [].
 Proof. exact crypto_no_buffers. Qed.
 Print Assumptions C03_crypto_no_buffers.
+
+(** ** Round 5 (audit) *)
+
+(** The stream-level counterpart of [C03_sorter_fails_only_on_gap_limit]: the model's Bug values
+    (sorter panics, fuel) are unreachable from ReceiveStream. A history [rsrun] is [None] only at a
+    STREAM frame rejected with FINAL_SIZE_ERROR, FLOW_CONTROL_ERROR or the sorter's gap limit (with
+    more than MaxStreamFrameSorterGaps gaps), or at a RESET_STREAM(_AT) rejected with
+    FINAL_SIZE_ERROR / FLOW_CONTROL_ERROR; Read, Peek, CancelRead, closeForShutdown never fail.
+    So the hypotheses [rsrun ... = Some r] of the stream theorems exclude exactly the genuine
+    transport errors (after which the connection is closed). *)
+Theorem C03_stream_fails_only_on_transport_error : forall S w ops,
+  0 <= w < MaxBC -> Forall rvalid ops -> rsrun S (rrun_init w) ops = None ->
+  exists pre o rest r, ops = pre ++ o :: rest /\ rsrun S (rrun_init w) pre = Some r /\ transport_error S r o.
+Proof. exact recv_fails_only_on_transport_error. Qed.
+Print Assumptions C03_stream_fails_only_on_transport_error.
+
+(** Gap limit, both directions: from a state satisfying the invariant with at most
+    MaxStreamFrameSorterGaps (= 1000) gaps, a consistent Push is refused exactly when the gap list
+    it produces has more than that many gaps; an accepted Push keeps the bound; hence the bound
+    holds in every reachable state. *)
+Theorem C03_gap_limit_value : MaxGaps = 1000.
+Proof. exact MaxGaps_val. Qed.
+Print Assumptions C03_gap_limit_value.
+
+Theorem C03_sorter_gap_limit_iff : forall S s off n cb s' r,
+  Inv S s -> 0 <= off -> 0 <= n -> off + n < MaxBC -> Z.of_nat (length (gaps s)) <= MaxGaps ->
+  Push s (slice S off n) off cb = (s', r) ->
+  (r = TooManyGaps <-> MaxGaps < Z.of_nat (length (gaps s'))) /\
+  (r = Ok -> Z.of_nat (length (gaps s')) <= MaxGaps).
+Proof. exact push_gap_limit_iff. Qed.
+Print Assumptions C03_sorter_gap_limit_iff.
+
+Theorem C03_sorter_gap_bound : forall S ops rs,
+  Forall valid_op ops -> srun S run_init ops = Some rs -> Z.of_nat (length (gaps (r_st rs))) <= MaxGaps.
+Proof. exact sorter_gap_bound. Qed.
+Print Assumptions C03_sorter_gap_bound.
+
+(** What a refused Push leaves behind (the code, like the model, has already updated the gap
+    list, deleted the entries the new frame replaces and fired their callbacks; the connection is
+    then closed): the read position is unchanged, the queue only lost entries (what is left are
+    entries of the old queue, i.e. still correct bytes), callbacks were only appended, and every
+    callback id is still in exactly one place — fired or queued — except that the refused frame's own
+    id may be in neither (its buffer is dropped, never recycled). With distinct ids: nothing fired
+    twice, nothing fired that is still queued. *)
+Theorem C03_sorter_gap_limit_state : forall S s off n cb s',
+  Inv S s -> 0 <= off -> 0 <= n -> off + n < MaxBC ->
+  Push s (slice S off n) off cb = (s', TooManyGaps) ->
+  readPos s' = readPos s /\ (exists l, fired s' = fired s ++ l) /\
+  (forall k e, In (k, e) (queue s') -> In (k, e) (queue s)) /\
+  (exists rest, (rest = [] \/ rest = optl cb) /\
+     Permutation (fired s' ++ live (queue s') ++ rest) (optl cb ++ fired s ++ live (queue s))).
+Proof. exact push_gap_limit_state. Qed.
+Print Assumptions C03_sorter_gap_limit_state.
+
+Theorem C03_sorter_gap_limit_nodup : forall S s off n cb s',
+  Inv S s -> 0 <= off -> 0 <= n -> off + n < MaxBC ->
+  NoDup (optl cb ++ fired s ++ live (queue s)) ->
+  Push s (slice S off n) off cb = (s', TooManyGaps) -> NoDup (fired s' ++ live (queue s')).
+Proof. exact push_gap_limit_nodup. Qed.
+Print Assumptions C03_sorter_gap_limit_nodup.
+
+(** Non-vacuity of the gap-limit theorems: 1000 isolated one-byte frames are accepted (1001 gaps
+    would be too many: the first push splits the initial gap in two, so the 1000th isolated byte is
+    refused). *)
+Example C03_gap_limit_example :
+  let ops := map (fun i => SPush (2 * Z.of_nat i) 1 None) (seq 1 999) in
+  Forall valid_op ops /\
+  match srun sbyte run_init ops with
+  | Some rs => (Z.of_nat (length (gaps (r_st rs))), snd (Push (r_st rs) (slice sbyte 2000 1) 2000 None))
+  | None => (0, Bug)
+  end = (1000, TooManyGaps).
+Proof.
+  cbv zeta. split.
+  - apply Forall_forall. intros o Hin. apply in_map_iff in Hin. destruct Hin as (i&<-&Hi).
+    apply in_seq in Hi. unfold valid_op. rewrite ProofsBase.MaxBC_val. lia.
+  - vm_compute. reflexivity.
+Qed.
+Print Assumptions C03_gap_limit_example.
